@@ -42,7 +42,9 @@ CLAIMS = {
             "return split -> entry parser -> interpolate_defaults -> _set_name_and_type is the identity on the same "
             "default-free domain for these two styles as well (any number of parameters; the grouping loop is shown to be a "
             "fold, scanLoop_fold). The three whole-docstring theorems are partial: no defaults (the default sentence is "
-            "covered by the C17 theorems, floats included), no return entry - except numpydoc, where "
+            "covered by the C17 theorems, floats included), no return entry - except ReST, where C01_rest_return_partial carries a typed, "
+            "described return entry through the :returns:/:rtype: pair (the return items do not flush the parameter being "
+            "collected, the final flush does), and numpydoc, where "
             "NumpyRT.C01_numpydoc_return_partial carries a typed, described return entry through the Returns/------- "
             "section (returnSplit_found: the return split finds the pair right after the argument units, for any number of "
             "arguments) - and the lexical side conditions listed in "
